@@ -223,6 +223,26 @@ def native_replay(h, replay_path, profile, logdir):
     return 'error', txt
 
 
+def native_validation(prop, logdir):
+    """models used as Kani stubs are validated natively against the real functions before any Kani verdict is trusted"""
+    filt = spec.NATIVE_VALIDATION.get(prop)
+    if not filt:
+        return True, []
+    crate_dir = HARNESS_OVERRIDE or os.path.join(ROOT, 'harness')
+    env = dict(os.environ)
+    env.update(KANI_ENV)
+    env['RUSTUP_TOOLCHAIN'] = NATIVE_TOOLCHAIN
+    env['RUSTFLAGS'] = env.get('RUSTFLAGS', '') + ' -Awarnings'
+    env.pop('VERIF_REPLAY', None)
+    cmd = ['cargo', 'test', '--offline', '--lib', '--features', prop.lower(), '--target-dir', os.path.join(WORK, 'native'), filt, '--', '--nocapture', '--test-threads', '4']
+    lp = os.path.join(logdir, 'native-validation.log')
+    rc, to, wall = run_proc(cmd, crate_dir, env, 1800, 32, lp)
+    txt = open(lp, errors='replace').read()
+    lines = re.findall(r'^(C\d\d-MODEL-VALIDATION .*)$', txt, re.M)
+    ok = rc == 0 and not to and bool(re.search(r'test result: ok\. [1-9]\d* passed', txt)) and bool(lines)
+    return ok, lines
+
+
 def load_known():
     p = os.path.join(ROOT, 'known_findings.json')
     if not os.path.exists(p):
@@ -283,6 +303,12 @@ def main(argv=None):
     if a.replay:
         return replay_only(prop, a.replay, logdir)
 
+    nv_ok, nv_lines = native_validation(prop, logdir)
+    for l in nv_lines:
+        log(l)
+    if not nv_ok:
+        log(f"MACHINERY-FAILURE native validation of the stub models of {prop} failed (see {logdir}/native-validation.log)")
+        return 2
     hs = select(prop, a.tier, seed, a.only)
     if not hs:
         log(f"no harnesses registered for {prop}")
@@ -377,7 +403,7 @@ def main(argv=None):
 
     wall = time.time() - t0
     if not a.no_evidence and not a.only:
-        write_evidence(prop, a.tier, seed, jobs, violations, findings, wall)
+        write_evidence(prop, a.tier, seed, jobs, violations, findings, wall, nv_lines)
     if not a.keep:
         for d in os.listdir(WORK):
             if d.startswith(f"kani-{prop}-") or d in ('native', 'native-nightly'):
@@ -435,7 +461,7 @@ def replay_only(prop, path, logdir):
     return 0 if res == 'not-reproduced' else 2
 
 
-def write_evidence(prop, tier, seed, jobs, violations, findings, wall):
+def write_evidence(prop, tier, seed, jobs, violations, findings, wall, nv_lines=()):
     decided = [j for j in jobs if j.state in ('held', 'failed')]
     held = [j for j in jobs if j.state == 'held']
     funcs = set()
@@ -474,6 +500,7 @@ def write_evidence(prop, tier, seed, jobs, violations, findings, wall):
             'instantiations': sorted({j.h.inst for j in held}),
             'build_modes': sorted({j.h.mode for j in held}),
             'stubs': sorted({s for j in jobs if j.parsed for s in j.parsed['stubs']}),
+            'stub_model_validation': list(nv_lines),
             'bounds': sorted({f"{j.h.macro}: {j.h.bound}" for j in held}),
             'outside_bounds': spec.OUTSIDE.get(prop, []),
             'known_findings_reported': [k['id'] for _, k in findings],
